@@ -249,6 +249,142 @@ def error_at_shape(man):
     return lits, line_of_token and arms, emit_prev
 
 
+
+# ---------------------------------------------------------------------------------------------------------
+# every failure raised by an instruction goes through try_handle_error (so that a handler is consulted and the
+# report names the class)
+
+def vm_functions(toks):
+    """(name, body_open, body_close) of every fn with a body"""
+    res = []
+    for j, t in enumerate(toks):
+        if t.text == "fn" and j + 1 < len(toks) and toks[j + 1].kind == "id":
+            k = j + 2
+            while k < len(toks) and toks[k].text not in ("{", ";"):
+                if toks[k].text in ("(", "["):
+                    k = match_group(toks, k)
+                k += 1
+            if k < len(toks) and toks[k].text == "{":
+                res.append((toks[j + 1].text, k, match_group(toks, k)))
+    return res
+
+
+def dispatch_shape(man):
+    vm = toks_of("vm.rs")
+    fns = vm_functions(vm)
+    # innermost function of a token index
+    def owner(i):
+        best = None
+        for name, o, c in fns:
+            if o < i < c and (best is None or o > best[1]):
+                best = (name, o, c)
+        return best
+    bodies = {}
+    for name, o, c in fns:
+        bodies.setdefault(name, (o, c))
+    run = bodies.get("run")
+    if run is None:
+        raise ValueError("fn run not found")
+    HANDLERS = ("try_handle_error", "unwind_stack")
+
+    def callee_before_q(i):
+        """vm[i] is `?`: name g when the operand is a method call `. g ( ... )`, else None"""
+        if vm[i - 1].text != ")":
+            return None
+        depth, k = 0, i - 1
+        while k >= 0:
+            if vm[k].text == ")":
+                depth += 1
+            elif vm[k].text == "(":
+                depth -= 1
+                if depth == 0:
+                    break
+            k -= 1
+        if k >= 2 and vm[k - 1].kind == "id" and vm[k - 2].text == ".":
+            return vm[k - 1].text
+        return None
+
+    d0 = set()
+    for i in range(run[0], run[1]):
+        if vm[i].text == "?":
+            g = callee_before_q(i)
+            if g:
+                d0.add(g)
+    D = set(d0)
+    for name, (o, c) in bodies.items():
+        b = texts(vm, o, c + 1)
+        if any(find_sub(b, ["self", ".", h, "("]) >= 0 for h in HANDLERS) and name not in HANDLERS + ("run",):
+            D.add(name)
+    problems = []
+    raw_ok = {("return_impl", "unload_fiber")}     # guarded by `caller.is_some()`: cannot fail there
+    for name in sorted(D):
+        if name not in bodies:
+            problems.append("%s: no body" % name)
+            continue
+        o, c = bodies[name]
+        b = texts(vm, o, c + 1)
+        if find_sub(b, ["return", "Err", "("]) >= 0:
+            problems.append("%s: `return Err(` leaves the run loop without try_handle_error" % name)
+        for i in range(o, c):
+            if vm[i].text == "?":
+                g = callee_before_q(i)
+                if g is None or not (g in D or g in HANDLERS or (name, g) in raw_ok):
+                    problems.append("%s: `?` on %s propagates a raw error" % (name, g or "a value"))
+            if vm[i].text == "error!" and vm[i + 1].text == "(":
+                # enclosing `let NAME = ... ;`
+                k, depth, letname = i, 0, None
+                while k > o:
+                    t = vm[k].text
+                    if t in (")", "]", "}"):
+                        depth += 1
+                    elif t in ("(", "[", "{"):
+                        depth -= 1
+                    elif t == ";" and depth <= 0:
+                        break
+                    elif t == "let" and depth <= 0:
+                        n0 = k + 2 if vm[k + 1].text == "mut" else k + 1
+                        if vm[n0].kind == "id" and vm[n0 + 1].text == "=":
+                            letname = vm[n0].text
+                            break
+                    k -= 1
+                if letname is None:
+                    problems.append("%s: error! value not bound by a let" % name)
+                    continue
+                rest = texts(vm, i, c + 1)
+                names = {letname}
+                for pat in (["if", "let", "Err", "("], ["if", "let", "Some", "("], ["Err", "("], ["Some", "("]):
+                    p = 0
+                    while True:
+                        p = find_sub(rest, pat, p)
+                        if p < 0:
+                            break
+                        q = p + len(pat)
+                        if rest[q + 1] == ")" and (rest[q + 2] in ("=", "=>")):
+                            if rest[q + 2] == "=>" or rest[q + 3] in names:
+                                names.add(rest[q])
+                        p += 1
+                if not any(find_sub(rest, ["try_handle_error", "(", v, ")"]) >= 0 for v in names):
+                    problems.append("%s: error! value `%s` does not reach try_handle_error" % (name, letname))
+        if name == "return_impl" and "unload_fiber" in b:
+            u = b.index("unload_fiber")
+            depth, k = 0, u
+            while k > 0 and not (b[k] == "{" and depth == 0):      # the block that contains the call
+                if b[k] == "}":
+                    depth += 1
+                elif b[k] == "{":
+                    depth -= 1
+                k -= 1
+            j = k
+            while j > 0 and b[j] != "if":
+                j -= 1
+            if find_sub(b[j:k], ["caller", ".", "is_some", "(", ")"]) < 0:
+                problems.append("return_impl: unload_fiber no longer guarded by caller.is_some()")
+    # functions that hand a raw Error to their caller (the caller must wrap it: they may not be called with `?` from D)
+    raw = sorted(n for n, (o, c) in bodies.items() if n not in D and n not in HANDLERS + ("run",) and
+                 (find_sub(texts(vm, o, c + 1), ["Err", "(", "error!"]) >= 0 or "?" in texts(vm, o, c + 1)))
+    man["c17_dispatch"] = {"dispatch_functions": sorted(D), "raw_error_helpers": raw, "problems": problems}
+    return not problems
+
 def coq_bool(b):
     return "true" if b else "false"
 
@@ -265,6 +401,7 @@ def gen_unwindarms(man):
     live_ip, rev, minus1, prefers, tlits, mod_fmt = trace_shape(man)
     ufmt, exc, ctx, udesc = unhandled_shape(man)
     clits, cshape, emit_prev = error_at_shape(man)
+    dispatch_ok = dispatch_shape(man)
     tl = (tlits + [None] * 3)[:3] if len(tlits) == 3 else [None] * 3
     cl = clits if len(clits) == 4 else [None] * 4
     templates = [tl[0], tl[1], tl[2], mod_fmt, ufmt, exc, ctx, cl[0], cl[1], cl[2], cl[3]]
@@ -283,6 +420,9 @@ def gen_unwindarms(man):
              "Definition trace_innermost_first : bool := %s." % coq_bool(rev),
              "Definition trace_index_offset_minus_one : bool := %s." % coq_bool(minus1),
              "Definition store_prefers_error_ip : bool := %s." % coq_bool(prefers),
+             "(* vm.rs: in every function the run loop calls with `?` (and every function that calls try_handle_error) no",
+             "   `return Err(`, no `?` on a raw error, every error! value reaches try_handle_error *)",
+             "Definition dispatch_errors_go_through_handlers : bool := %s." % coq_bool(dispatch_ok),
              "(* vm.rs fn new_error_from_value: class name of the instance, message split at newlines *)",
              "Definition unhandled_names_instance_class : bool := %s." % coq_bool(udesc),
              "(* compiler.rs fn error_at: token.line, Eof / Error arms; fn emit_byte: previous.line *)",
